@@ -180,6 +180,55 @@ func wgRun(t *testing.T, sp *wgSpec) {
 			rec.Note("thorough tier: the 16 processes together enumerate the complete small universe (%d models)", total)
 		}
 	}
+	// second bounded universe: nested operators of the same kind (twins and cousins, see wgNestedModel); the
+	// non-terminal nodes are too many for all start orders, so: sorted, reverse sorted and 6 rotations.
+	// quick: every 2nd twin model and every 64th cousin model; thorough: all twins, every 4th cousin model.
+	{
+		total := wgNestedCount()
+		stride := 64
+		if ev.Thorough() {
+			stride = 4
+		}
+		var n, orders, accepted int64
+		var idxs []int
+		twinStride := 2
+		if ev.Thorough() {
+			twinStride = 1
+		}
+		for idx := ev.Shard() + int(ev.Seed()%int64(twinStride))*ev.Shards(); idx < wgTwinCount; idx += ev.Shards() * twinStride {
+			idxs = append(idxs, idx)
+		}
+		for idx := wgTwinCount + ev.Shard() + int(ev.Seed()%int64(stride))*ev.Shards(); idx < total; idx += ev.Shards() * stride {
+			idxs = append(idxs, idx)
+		}
+		for _, idx := range idxs {
+			m := wgNestedModel(idx)
+			in := wgInput{Model: m}
+			if g0 := refBuildOnly(m); g0.Err == "" {
+				ids := wgNonTerminal(g0)
+				rev := append([]string{}, ids...)
+				for i, j := 0, len(rev)-1; i < j; i, j = i+1, j-1 {
+					rev[i], rev[j] = rev[j], rev[i]
+				}
+				in.Orders = [][]string{ids, rev}
+				for k := 1; k <= 6 && k < len(ids); k++ {
+					r := (k * len(ids)) / 7
+					in.Orders = append(in.Orders, append(append([]string{}, ids[r:]...), ids[:r]...))
+				}
+			}
+			res := wgEvaluate(in, wgOpts{RealBuilds: 2})
+			n++
+			orders += int64(res.Orders)
+			if res.Accepted {
+				accepted++
+			}
+			if msg := wgReport(rec, sp, in, res); msg != "" {
+				t.Fatalf("nested-operator universe model #%d: %s\n%s", idx, msg, m.String())
+			}
+		}
+		rec.Bulk(n, n, map[string]int64{"nested-universe:models": n, "nested-universe:ordered-builds": orders, "nested-universe:accepted": accepted})
+		rec.Note("nested-operator universe (twin and cousin operators of one kind): %d of %d models (twins: every %d., cousins: every %d.), %d ordered builds", n, total, twinStride, stride, orders)
+	}
 	rapid.Check(t, func(rt *rapid.T) {
 		opts := sp.opts
 		if ev.Thorough() && rapid.IntRange(0, 3).Draw(rt, "big") == 0 {
